@@ -26,6 +26,7 @@ func runC17(c *Check) {
 	c.Doc("C17-R2", "EO: flag cleared only after producing in the same iteration; set on notification.")
 	c.Doc("C17-R3", "EO: timers re-armed on every continuing path through their case.")
 	c.Doc("C17-R4", "EO: notifications do not trigger production in normal mode.")
+	c.Doc("C17-R13", "BO: in both aggregation loops the production call is given the loop's context, never one the loop derived with a deadline (context.WithTimeout / WithDeadline): a slow production is late, it is not cancelled and retried for ever.")
 	c.Doc("C17-R6", "EO+VP: every production is followed, before the loop waits again, by a reset of the block timer whose duration derives from the configured block interval.")
 
 	// the notification channel: the channel field the notifier sends on
@@ -320,6 +321,7 @@ func runC17(c *Check) {
 				}
 			}
 			prods := g.Select(isProduce)
+			ruleProductionNoDeadline(c, p, g, "lazy", fn, prods)
 			if blockTimer == "" || len(prods) == 0 || len(sel) != 1 {
 				c.Unk("C17-R6", "lazy ⟂ production→block-timer-pushed-back", fn, "", "anchor lost: block timer (the timer whose case tests the pending flag) / production call")
 			} else {
@@ -338,6 +340,7 @@ func runC17(c *Check) {
 		g := BuildECFG(p, normal, ExpandOpts{MaxDepth: 1, Stop: func(fn *ssa.Function) bool { return strings.Contains(fnName(fn), "publishBlockInternal") }})
 		c.NoteGraph(g)
 		fn := fnName(normal)
+		ruleProductionNoDeadline(c, p, g, "normal", fn, g.Select(isProduce))
 		sel := g.Select(func(n *Node) bool {
 			s, ok := n.In.(*ssa.Select)
 			return ok && s.Blocking && (n.Ctx.Depth == 0 || (n.Ctx.Depth == 1 && n.Ctx.Fn.Parent() == g.Root))
@@ -604,6 +607,7 @@ func runC17(c *Check) {
 	c.MinInstances("C17-R6", 2)
 	c.Doc("C17-R11", "VP+EO: a timer reset that follows a production and is computed from an instant (the remaining part of the interval since time.Now()) takes that instant before the production call, not after it: the time spent producing counts against the interval (otherwise a notification that arrives during production is served a whole block interval after production ended, and blocks come every interval + production time).")
 	c.MinInstances("C17-R11", 2)
+	c.MinInstances("C17-R13", 3)
 }
 
 // resetsByBlockTime: the duration of the timer reset derives from the configured block interval
@@ -869,6 +873,28 @@ func defaultedThroughTable(g *Graph, suffix string) (string, bool) {
 // before the loop waits again whose duration derives from a time.Now() call: that call is not
 // reachable from the production within the iteration (it was made before production began).
 var c17r11Seen = map[string]bool{}
+
+// ruleProductionNoDeadline (C17-R13): the aggregation loop hands its own context to the production
+// call. A deadline set in the loop (context.WithTimeout / WithDeadline around the attempt) cancels
+// every production that takes longer than it: the saved block is retried under the same deadline,
+// so the cadence "one block per interval, or as fast as production allows" becomes "no block".
+func ruleProductionNoDeadline(c *Check, p *Prog, g *Graph, mode, fn string, prods []*Node) {
+	for _, nd := range prods {
+		cc := CallCommonOf(nd)
+		if cc == nil || len(cc.Args) == 0 {
+			continue
+		}
+		ct := TermOf(cc.Args[0], nd.Ctx)
+		inst := mode + " ⟂ production called with the loop's context, no deadline of the loop's own"
+		if p.DeepContains(ct, func(t *Term) bool {
+			return t.IsCall("context.WithTimeout") || t.IsCall("context.WithDeadline") || t.IsCall("context.WithTimeoutCause") || t.IsCall("context.WithDeadlineCause")
+		}, 1) {
+			c.Bad("C17-R13", inst, fn, p.InstrPos(nd.In), "the production call runs under a deadline set in the aggregation loop ("+trunc(ct.String(), 80)+"): a production that takes longer than it is cancelled, and so is every retry — no block is produced while production is slower than the deadline, instead of one block per production time", nil)
+		} else {
+			c.OK("C17-R13", inst, fn, p.InstrPos(nd.In), "the context handed to the production is the loop's own", true)
+		}
+	}
+}
 
 func ruleResetReferenceBeforeProduction(c *Check, p *Prog, g *Graph, mode, fn string, prods, sel []*Node) {
 	if c17r11Seen[mode] {
